@@ -13,6 +13,9 @@ package props
 
 import (
 	"fmt"
+	"os"
+	"os/exec"
+	"path/filepath"
 	"strings"
 
 	"seehuhn.de/go/postscript/type1/names"
@@ -49,6 +52,14 @@ func fmtRunes(rr []rune) string {
 }
 
 func runC16(r *rt.Runner) {
+	if first := os.Getenv("VERIF_C16_FIRST"); first != "" {
+		// child process: the very first look-up of the process (nothing else has
+		// touched the name tables yet)
+		db := strings.HasSuffix(first, "|true")
+		name := strings.TrimSuffix(strings.TrimSuffix(first, "|true"), "|false")
+		fmt.Printf("FIRST %s\n", fmtRunes(names.ToUnicode(name, db)))
+		return
+	}
 	agl, err := ref.LoadAGL("/verif/refdata")
 	if err != nil {
 		panic(err)
@@ -211,6 +222,72 @@ func runC16(r *rt.Runner) {
 				}
 			}
 		})
+	}
+	// (c4b) every byte value at every digit position of the uni and u forms (a sign,
+	// a blank or a lower-case digit is not a hexadecimal digit of these forms)
+	r.Case("hex-digit-bytes", func(c *rt.C) {
+		for _, form := range []string{"uni0041", "uni00410042", "u0041", "u10041", "u10FFFD"} {
+			start := 3
+			if form[1] != 'n' {
+				start = 1
+			}
+			for pos := start; pos < len(form); pos++ {
+				for b := 0; b < 256; b++ {
+					nm := form[:pos] + string([]byte{byte(b)}) + form[pos+1:]
+					checkTU(c, nm, false)
+					if b%16 == 3 {
+						checkTU(c, "A_"+nm, true)
+					}
+				}
+			}
+		}
+	})
+	// (c4c) the first look-up of a process: fresh child processes whose very first
+	// call is a multi-code entry, a dingbat, a uni name, a composite
+	{
+		var firsts []string
+		for _, n := range agl.GLNames {
+			if len(agl.GlyphList[n]) > 1 {
+				firsts = append(firsts, n+"|false", n+"|true")
+			}
+		}
+		firsts = append(firsts, "a100|true", "a100|false", "uni20AC0308|false", "A_B.alt|false", "f_f_i|true", "u1F600|false", "Aacute|false")
+		nFirst := r.N(16, 120)
+		for k := 0; k < nFirst; k++ {
+			k := k
+			r.Case("first-call", func(c *rt.C) {
+				arg := firsts[(k*37+int(r.Seed)*11)%len(firsts)]
+				exe, err := os.Executable()
+				if err != nil {
+					c.Inconclusive("cannot locate the worker binary")
+					return
+				}
+				logPath := filepath.Join(r.LogDir, fmt.Sprintf("c16-first-%d.log", c.Seq))
+				cmd := exec.Command(exe, "-prop", "C16", "-tier", r.Tier, "-seed", fmt.Sprint(r.Seed), "-only", "0", "-log", logPath, "-noprogress", "0")
+				cmd.Env = append(os.Environ(), "VERIF_C16_FIRST="+arg)
+				outB, err := cmd.Output()
+				os.Remove(logPath)
+				os.Remove(logPath + ".hashes")
+				if err != nil {
+					c.Inconclusive(fmt.Sprintf("child process failed: %v", err))
+					return
+				}
+				db := strings.HasSuffix(arg, "|true")
+				name := strings.TrimSuffix(strings.TrimSuffix(arg, "|true"), "|false")
+				want := "FIRST " + fmtRunes(agl.ToUnicode(name, db))
+				got := ""
+				for _, l := range strings.Split(string(outB), "\n") {
+					if strings.HasPrefix(l, "FIRST ") {
+						got = l
+					}
+				}
+				c.Count("first look-ups of a fresh process")
+				if got != want {
+					c.Violation(fmt.Sprintf("first-call:%s", arg), fmt.Sprintf("as the first look-up of a fresh process ToUnicode(%q, %t) gives %q, the AGL specification gives %q", name, db, strings.TrimPrefix(got, "FIRST "), strings.TrimPrefix(want, "FIRST ")), "")
+				}
+				c.Nontrivial([]byte("first|"+arg), func() string { return arg + " -> " + got })
+			})
+		}
 	}
 	// (c5) u-forms at the boundaries, every digit count
 	r.Case("u-boundaries", func(c *rt.C) {
